@@ -10,6 +10,9 @@ def expm(x):
         )
     _expm = ar.get_lib_fn(x.backend, "scipy.linalg.expm")
     new = x.copy()
+    if new.fermionic:
+        # the blocks must carry their pending signs before being exponentiated
+        new.phase_sync(inplace=True)
     new.apply_to_arrays(_expm)
     return new
 
